@@ -32,7 +32,7 @@ TRUSTED_BASE = [
     'striptab modes, word size, prefix bounds and digit bounds in coq/Gen/GenControl.v and test the presence of the statements the models '
     'transcribe (bounded newline skip, validation loop before matching loop, single-line/ERANGE tests of loadintfd, ...)',
     'hand-written models coq/Model/FindDomain.v, MatchNet.v, LoadFile.v tied to the C by the correspondence run (differential testing, bounded by the generator); '
-    'compact_buffer (in-place memmove) and data_array (realloc + pointer table) are modelled by their functional result',
+    'compact_buffer / data_array / the loadlistfd loops are modelled literally over byte arrays in Model/LoadListArr.v (pointer table kept beside the byte image as offsets); the functional LoadFile.v versions are proved equal',
     'sizeof(struct in_addr) = 4, sizeof(struct in6_addr) = 16, little-endian host: typed into the model, _Static_assert in the harness',
     'glibc memchr / strncasecmp / strcasecmp / strtoul / strlen in the C locale as modelled (ASCII case folding; strtoul on a digit-led string: all digits consumed, ERANGE above 2^64-1)',
     'extraction with ExtrOcamlBasic only; ocaml/glue.ml + ocaml/control_driver.ml hex parsing/printing (decimal printing of N by the driver)',
@@ -44,8 +44,8 @@ ASSUMPTIONS = [
     'open/flock/fstat/mmap/read/malloc/realloc succeed; their error paths (ENOLCK, ENOMEM, EISDIR, short reads) are outside the model',
     'the query name is a C string (no NUL); for the reading "equals an entry or ends with a dot-led entry" the name does not itself start with a dot',
     'address bytes are octets (< 256); prefix argument of ip4_matchnet <= 32, of ip6_matchnet <= 128 (larger values are UB in the C; check_ipbl_file never passes them: proved)',
-    'loadlistfd is modelled without a check callback (cf = NULL); the callback path (rejected entries) belongs to C20',
-    'lloadfilefd modes 0, 1, 2 and loadonelinerfd are covered by the correspondence run only',
+    'the check callback of loadlistfd is a pure function of the entry text (Section variable cf : bytes -> bool; NULL = fun _ => false)',
+    'file sizes are nat in the model, size_t in the C: contents of 2^31 octets and more are outside what was run',
 ]
 
 
